@@ -221,6 +221,19 @@ template <class T>
     return (std::min)(detail::extract_lowest_set_bit(byte_size), alignment);
 }
 
+// Worst-case number of padding bytes between `offset` and the next address that is aligned to NextAlignment, when
+// `offset` is only known relative to an address that is aligned to `alignment`.
+template <std::size_t TrailingAlignment, std::size_t NextAlignment>
+[[nodiscard]] constexpr std::size_t trailing_padding(std::size_t offset, std::size_t alignment) noexcept
+{
+    if (alignment < NextAlignment)
+    {
+        const auto known_alignment = offset == 0 ? alignment : detail::trailing_alignment(offset, alignment);
+        return NextAlignment - known_alignment;
+    }
+    return detail::align_if<(TrailingAlignment < NextAlignment), NextAlignment>(offset) - offset;
+}
+
 inline constexpr auto SIZE_T_TRAILING_ALIGNMENT = detail::trailing_alignment(sizeof(std::size_t), alignof(std::size_t));
 }  // namespace cntgs::detail
 
